@@ -55,8 +55,9 @@ func init() {
 	wrap("C01", c01R15, "R15 (added): the signature check of an NSEC/NSEC3 RRset is reached only across a test that the RRSIG's Labels field is not smaller than the owner's label count — a denial record is never accepted through RFC 4035 §5.3.2 wildcard reconstruction, so the wildcard's NSEC cannot be replayed under another owner.")
 }
 
-func c01R15(c *Ctx) {
-	const R = "C01-R15"
+func c01R15(c *Ctx) { c01R15as(c, "C01-R15") }
+
+func c01R15as(c *Ctx, R string) {
 	const pkg = "middleware/resolver/dnssec"
 	c.Doc(R, "package dnssec: walking up from cryptoVerify through the callers that only pass the *dns.RRSIG on, the verification is reached only across (L) a comparison of that signature's Labels field with the owner's label count (dns.CountLabel) on the not-smaller edge, or (T) the edges on which the RRset type is neither NSEC nor NSEC3. An NSEC/NSEC3 whose signature fits only after wildcard reconstruction is the wildcard's denial record under another name (RFC 4035 §5.3.2 applies to synthesised answers only)")
 	crypto := c.fobj(R, pkg+".cryptoVerify")
